@@ -159,6 +159,9 @@ def float_part(L, rng, n):
         v = np.array([rng.uniform(-5, 5) for _ in range(6)])
         u = np.array([rng.uniform(-5, 5) for _ in range(6)])
         case = {"A": A.tolist(), "B": B.tolist(), "C": C.tolist(), "v": v.tolist(), "u": u.tolist()}
+        # known finding log_near_pi: changeFrame goes through the logarithm of the relative pose of the two frames; when that
+        # relative rotation is within 1e-3 of a half turn its error (2e-15/(pi-angle)^2) exceeds the 1e-8 of C12
+        kn = "log_near_pi" if any(rf.rot_angle((rf.trans_inv(X) @ Y)[:3, :3]) > PI - 1e-3 for X, Y in ((A, B), (B, C), (A, C))) else ""
         sc = lambda x: max(1.0, float(np.abs(x).max()))
         for kind, cls in (("screw", Screw), ("wrench", Wrench)):
             mk = (lambda d, F: Screw(d.reshape((6, 1)).copy(), tm(F.copy()))) if kind == "screw" else \
@@ -166,31 +169,31 @@ def float_part(L, rng, n):
             TBA = rf.trans_inv(B) @ A
             want = rf.adjoint(TBA) @ v if kind == "screw" else rf.adjoint(rf.trans_inv(A) @ B).T @ v
             o = mk(v, A).changeFrame(tm(B.copy()))
-            L.log(kind + ":A->B=Ad", reg, float(np.abs(o.getData().reshape(6) - want).max()) / sc(want), 1e-8, case)
-            L.log(kind + ":records frame", reg, float(np.abs(o.frame_applied.gTM() - B).max()), 1e-8, case)
+            L.log(kind + ":A->B=Ad", reg, float(np.abs(o.getData().reshape(6) - want).max()) / sc(want), 1e-8, case, kn)
+            L.log(kind + ":records frame", reg, float(np.abs(o.frame_applied.gTM() - B).max()), 1e-8, case, kn)
             back = mk(v, A).changeFrame(tm(B.copy())).changeFrame(tm(A.copy()))
-            L.log(kind + ":A->B->A", reg, float(np.abs(back.getData().reshape(6) - v).max()) / sc(want), 1e-8, case)
+            L.log(kind + ":A->B->A", reg, float(np.abs(back.getData().reshape(6) - v).max()) / sc(want), 1e-8, case, kn)
             two = mk(v, A).changeFrame(tm(B.copy())).changeFrame(tm(C.copy()))
             one = mk(v, A).changeFrame(tm(C.copy()))
-            L.log(kind + ":A->B->C=A->C", reg, float(np.abs(two.getData() - one.getData()).max()) / sc(one.getData()), 1e-8, case)
+            L.log(kind + ":A->B->C=A->C", reg, float(np.abs(two.getData() - one.getData()).max()) / sc(one.getData()), 1e-8, case, kn)
             # sums across frames
             s1 = mk(v, A) + mk(u, B)
             ub = mk(u, B).changeFrame(tm(A.copy())).getData().reshape(6)
-            L.log(kind + ":sum across frames", reg, float(np.abs(s1.getData().reshape(6) - (v + ub)).max()) / sc(v + ub), 1e-8, case)
+            L.log(kind + ":sum across frames", reg, float(np.abs(s1.getData().reshape(6) - (v + ub)).max()) / sc(v + ub), 1e-8, case, kn)
             d1 = mk(v, A) - mk(u, B)
             L.log(kind + ":difference across frames", reg, float(np.abs(d1.getData().reshape(6) - (v - ub)).max()) / sc(v - ub),
-                  1e-8, case)
+                  1e-8, case, kn)
             L.log(kind + ":(a+b)-b=a", reg, float(np.abs(((mk(v, A) + mk(u, B)) - mk(u, B)).getData().reshape(6) - v).max())
-                  / sc(v + ub), 1e-8, case)
+                  / sc(v + ub), 1e-8, case, kn)
             k = rng.choice([-3.5, 0.25, 2.0, 7])
             s = rng.uniform(-4, 4)
             a = mk(v, A)
-            L.log(kind + ":(k*a)/k=a", reg, float(np.abs(np.asarray(((a * k) / k).getData()).reshape(6) - v).max()), 1e-8 * sc(v), case)
-            L.log(kind + ":a-s=a+(-s)", reg, float(np.abs(np.asarray(_data(a - s)) - np.asarray(_data(a + (-s)))).max()), 1e-8 * sc(v), case)
-            L.log(kind + ":s-a=-(a-s)", reg, float(np.abs(np.asarray(_data(s - a)) + np.asarray(_data(a - s))).max()), 1e-8 * sc(v), case)
-            L.log(kind + ":a-arr=a+(-arr)", reg, float(np.abs(_data(a - u) - _data(a + (-u))).max()), 1e-8 * sc(v), case)
+            L.log(kind + ":(k*a)/k=a", reg, float(np.abs(np.asarray(((a * k) / k).getData()).reshape(6) - v).max()), 1e-8 * sc(v), case, kn)
+            L.log(kind + ":a-s=a+(-s)", reg, float(np.abs(np.asarray(_data(a - s)) - np.asarray(_data(a + (-s)))).max()), 1e-8 * sc(v), case, kn)
+            L.log(kind + ":s-a=-(a-s)", reg, float(np.abs(np.asarray(_data(s - a)) + np.asarray(_data(a - s))).max()), 1e-8 * sc(v), case, kn)
+            L.log(kind + ":a-arr=a+(-arr)", reg, float(np.abs(_data(a - u) - _data(a + (-u))).max()), 1e-8 * sc(v), case, kn)
             L.log(kind + ":arr-a=-(a-arr)", reg, float(np.abs(_data(u.reshape((6, 1)) - a) + _data(a - u.reshape((6, 1)))).max()),
-                  1e-8 * sc(v), case)
+                  1e-8 * sc(v), case, kn)
         # power invariance
         w, s_ = Wrench(v.reshape((6, 1)).copy(), None, tm(A.copy())), Screw(u.reshape((6, 1)).copy(), tm(A.copy()))
         p0 = float(v @ u)
@@ -198,20 +201,33 @@ def float_part(L, rng, n):
         s_.changeFrame(tm(B.copy()))
         p1 = float(w.getData().reshape(6) @ s_.getData().reshape(6))
         L.log("power invariant", reg, abs(p1 - p0) / max(1.0, abs(p0), float(np.abs(w.getData()).max() * np.abs(s_.getData()).max())),
-              1e-8, case)
+              1e-8, case, kn)
         # force at a point
         pt = np.array([rng.uniform(-3, 3) for _ in range(3)])
         f = np.array([rng.uniform(-5, 5) for _ in range(3)])
         mw = fsr.makeWrench(tm(list(pt) + [0, 0, 0]), 1.0, list(f), tm(A.copy()))
-        L.log("moment=p x f", reg, float(np.abs(mw.getMoment().reshape(3) - np.cross(pt, f)).max()) / sc(np.cross(pt, f)), 1e-8, case)
+        L.log("moment=p x f", reg, float(np.abs(mw.getMoment().reshape(3) - np.cross(pt, f)).max()) / sc(np.cross(pt, f)), 1e-8, case, kn)
         G = A.copy()
         G[:3, 3] = A[:3, 3] + A[:3, :3] @ pt
         mw.changeFrame(tm(G))
-        L.log("zero moment at application point", reg, float(np.abs(mw.getMoment()).max()) / sc(np.cross(pt, f)), 1e-8, case)
-        L.log("force unchanged at application point", reg, float(np.abs(mw.getForce().reshape(3) - f).max()) / sc(f), 1e-8, case)
+        L.log("zero moment at application point", reg, float(np.abs(mw.getMoment()).max()) / sc(np.cross(pt, f)), 1e-8, case, kn)
+        L.log("force unchanged at application point", reg, float(np.abs(mw.getForce().reshape(3) - f).max()) / sc(f), 1e-8, case, kn)
     for law in ("screw:A->B=Ad", "wrench:A->B=Ad", "screw:A->B->C=A->C", "wrench:A->B->C=A->C", "power invariant",
                 "zero moment at application point", "wrench:sum across frames", "screw:s-a=-(a-s)", "wrench:a-s=a+(-s)"):
         L.require(law, reg, n)
+
+
+def known_probe(L):
+    """Deterministic reproduction of log_near_pi for frame changes: B is A turned by pi - 1e-4 about a generic axis, so the
+    relative rotation the library takes the logarithm of is 1e-4 from a half turn."""
+    from basic_robotics.general import Screw, tm
+    A = rf.taa_to_tm([1.0, -2.0, 0.5, 0.2, -0.1, 0.3])
+    B = A @ rf.taa_to_tm([0.3, 0.1, -0.2] + list(np.array([0.36, 0.48, 0.8]) * (PI - 1e-4)))
+    v = np.array([1.0, -2.0, 3.0, 0.5, 4.0, -1.5])
+    want = rf.adjoint(rf.trans_inv(B) @ A) @ v
+    o = Screw(v.reshape((6, 1)).copy(), tm(A.copy())).changeFrame(tm(B.copy()))
+    L.log("screw:A->B=Ad", "probe", float(np.abs(o.getData().reshape(6) - want).max()) / max(1.0, float(np.abs(want).max())), 1e-8,
+          {"probe": "log_near_pi", "A": A.tolist(), "B": B.tolist(), "v": v.tolist()}, "log_near_pi")
 
 
 def _data(x):
@@ -265,8 +281,9 @@ def run(ctx):
     L = LawLog()
     with ctx.timed("float"):
         float_part(L, rng, ctx.pick(400, 50000))
+    known_probe(L)
     with ctx.timed("lawtrace"):
-        L.decide(ctx, tag="c12")
+        L.decide(ctx, known_tags=["log_near_pi"], tag="c12")
     return ctx.finish({
         "traces_validated_against_impl": total, "evaluations": total + len(L.events), "histories_replayed": total,
         "float_law_events": len(L.events), "distinct_nontrivial": nontriv,
